@@ -228,9 +228,18 @@ class Inliner:
             raise Unsupported(f"{fn_qualname(fn)}: attribute access on a value: {ast.unparse(n)}")
         if isinstance(n, ast.Call):
             f = self.ev(n.func, env, genv, depth, fn)
-            if any(isinstance(a, ast.Starred) for a in n.args) or any(k.arg is None for k in n.keywords):
+            if any(k.arg is None for k in n.keywords):
                 raise Unsupported(f"{fn_qualname(fn)}: star-args in call {ast.unparse(n)[:60]}")
-            args = [self.ev(a, env, genv, depth, fn) for a in n.args]
+            args = []
+            for a in n.args:
+                if isinstance(a, ast.Starred):
+                    # f(lib, *coords) with coords a tuple built in this function: the expansion is known statically
+                    tv = self.ev(a.value, env, genv, depth, fn)
+                    if tv.kind != "tuple":
+                        raise Unsupported(f"{fn_qualname(fn)}: star-args in call {ast.unparse(n)[:60]}")
+                    args.extend(tv.a)
+                else:
+                    args.append(self.ev(a, env, genv, depth, fn))
             kw = tuple(sorted(((k.arg, self.ev(k.value, env, genv, depth, fn)) for k in n.keywords), key=lambda t: t[0]))
             if f.kind == "libattr":
                 self.lib_names.add(f.a[0])
